@@ -79,6 +79,7 @@ RETURNS = [
     ("Tuple[int, str]", "the result.", ("code", "(1, 'x')")),
     ("int", LONG_RET, ("code", "a + 1")),
     ("int", ABSENT, ("code", "a + 1")),
+    ("Optional[int]", "the result", ("none",)),
 ]
 RETURNS_RED = [RETURNS[0], RETURNS[3], RETURNS[5]]
 
@@ -95,7 +96,7 @@ def resolve_default(d, pos):
         return NONE_STR
     v = d[1]
     if tag == "int":
-        return v if v == 0 else (v + pos if v > 0 else v - pos)
+        return v if v in (0, 1) else (v + pos if v > 0 else v - pos)
     if tag == "float":
         return v if v in (2.0, 1e-07, 1.0, 0.0) else (v + pos if v > 0 else v - pos)
     if tag == "bool":
@@ -117,13 +118,17 @@ def default_kind(d):
         return "none"
     v = d[1]
     if tag == "int":
-        return "int<0" if v < 0 else ("int0" if v == 0 else "int>0")
+        return "int<0" if v < 0 else ("int0" if v == 0 else ("int1" if v == 1 else "int>0"))
     if tag == "float":
         return "float<0" if v < 0 else ("float_exp" if v == 1e-07 else ("float_like_bool" if v in (0.0, 1.0) else "float"))
     if tag == "str":
         return {"": "str_empty", "two words": "str_space", "3": "str_digit", "a.b": "str_dot"}.get(v, "str")
     if tag == "code":
         return "code_dotted" if "np." in v else ("code_empty" if v == "[]" else "code")
+    if tag == "strlit" and v != "x":
+        return {"": "strlit_empty", "1": "strlit_digit"}[v]
+    if tag == "intlit" and v != 1:
+        return "intlit0"
     return tag
 
 
@@ -239,7 +244,31 @@ def S_B(lengths=(2, 3)):
 A_CHAIN = A_RED + [
     ("Optional[int]", ("int", 0), "the {n}"),
     ("bool", ("bool", False), "the {n}"),
+    ("Optional[str]", ("str", "3"), "the {n}"),
 ]
+
+
+# collision space: values that compare equal across Python types (0 == False == 0.0, 1 == True == 1.0), falsy Literal
+# members, digit-like strings on non-scalar types, and a typed entry with neither prose nor default - every ordered
+# pair / triple of them inside one interface
+A_COLL = [
+    ("int", ("int", 0), "the {n}"),
+    ("bool", ("bool", False), "the {n}"),
+    ("float", ("float", 0.0), "the {n}"),
+    ("int", ("int", 1), "the {n}"),
+    ("bool", ("bool", True), "the {n}"),
+    ("float", ("float", 1.0), "the {n}"),
+    ("str", ("str", ""), "the {n}"),
+    ("Literal[0, 1]", ("intlit", 0), "the {n}"),
+    ("Literal['', 'x']", ("strlit", ""), "the {n}"),
+    ("Literal['1', '2']", ("strlit", "1"), "the {n}"),
+    ("Optional[str]", ("str", "3"), "the {n}"),
+    ("int", ABSENT, ABSENT),
+]
+
+
+def S_D(lengths=(2,)):
+    return IRSpace(A_COLL, lengths, [None], [False], (0,))
 
 
 def S_C():
@@ -248,8 +277,8 @@ def S_C():
 
 def ir_space(tier, with_b4=False):
     if tier == "thorough" and with_b4:
-        return core.Concat(S_A(), S_B((2, 3, 4)))
-    return core.Concat(S_A(), S_B())
+        return core.Concat(S_A(), S_B((2, 3, 4)), S_D((2, 3)))
+    return core.Concat(S_A(), S_B(), S_D((2, 3) if tier == "thorough" else (2,)))
 
 
 def case_ir(case):
